@@ -67,7 +67,8 @@ def dot_break(text):
 
 
 LAYOUTS = ["one-line", "args-on-lines", "keyword-form", "keyword-form-lines", "condition-multiline", "comments", "trailing-comma-desc-kw",
-           "no-description", "no-description-kw", "break-before-matmul", "break-before-matmul-tight", "break-before-dot"]
+           "no-description", "no-description-kw", "break-before-matmul", "break-before-matmul-tight", "break-before-dot",
+           "space-after-at", "parenthesised-decorator"]
 NO_DESCRIPTION = ("no-description", "no-description-kw")
 
 
@@ -117,6 +118,11 @@ def make_layout(kind):
             tl = t.split("\n")
             return ["@icontract.%s(" % deco, "    lambda %s: %s" % (", ".join(params), tl[0])] + tl[1:-1] + [
                 tl[-1] + ",", "    %r%s)" % (desc, extra)]
+        if kind == "space-after-at":
+            return ["@ icontract.%s(%s, %r%s)" % (deco, lam, desc, extra)]  # blanks after the `@` are legal
+        if kind == "parenthesised-decorator":
+            # any expression may follow the `@` (PEP 614)
+            return ["@(icontract.%s)(%s, %r%s)" % (deco, lam, desc, extra)]
         if kind == "no-description":
             return ["@icontract.%s(%s%s)" % (deco, lam, extra)]
         if kind == "no-description-kw":
